@@ -498,8 +498,13 @@ def check(run, views, tier):
             d = first_diff(na, ns)
             if d:
                 # trees differ: are the path summaries the same (a one-sided, behaviour-preserving rewrite)?
-                # judged on primitives: every function of the two front ends (helpers and public siblings alike) inlined, depth-bounded
-                eq, why = same_paths(ab, sb, smap, inline=all_fe)
+                eq, why = same_paths(ab, sb, smap, inline=private)
+                if not eq:
+                    # .. or on primitives: every function of the two front ends (helpers and public siblings alike) inlined, depth-bounded.
+                    # Either inlining that makes the summaries equal shows the same calls under the same tests.
+                    eq2, why2 = same_paths(ab, sb, smap, inline=all_fe)
+                    if eq2:
+                        eq, why = eq2, why2
                 if eq:
                     d = None
                     detail = "trees differ, path summaries equal (%s)" % why
